@@ -29,6 +29,30 @@ def build_stmt(pos, val):
 def like_stmt(pattern, esc):
     return {'k': 'select', 'calls': [['column', ['col', 'a']], ['from', ['t', 't']], ['and_where', ['m', 'like', ['col', 'b'], pattern, esc]]]}
 
+def ddl(k, *calls): return {'k': k, 'calls': [list(c) for c in calls]}
+def cdef(name, ty='Integer', *specs): return {'name': name, 'type': ty, 'specs': list(specs)}
+def SV(S): return ['val', V('String', S)]
+# literal positions inside schema statements: position -> (script as a function of the text S, backends)
+DDL_POS = {
+ 'col_default':        (lambda S: ddl('table_create', ['table', ['t', 't']], ['col', cdef('c', 'Text', ['Default', SV(S)])]), BACKENDS),
+ 'col_default_alter':  (lambda S: ddl('table_alter', ['table', ['t', 't']], ['add_column', cdef('c', 'Text', 'NotNull', ['Default', SV(S)])]), BACKENDS),
+ 'col_default_modify': (lambda S: ddl('table_alter', ['table', ['t', 't']], ['modify_column', cdef('c', 'Text', ['Default', SV(S)])]), ('mysql', 'postgres')),
+ 'col_check':          (lambda S: ddl('table_create', ['table', ['t', 't']], ['col', cdef('c', 'Text', ['Check', ['bin', 'NotEqual', ['col', 'c'], SV(S)]])]), BACKENDS),
+ 'table_check':        (lambda S: ddl('table_create', ['table', ['t', 't']], ['col', cdef('c', 'Text')], ['check', ['bin', 'NotEqual', ['col', 'c'], SV(S)]]), BACKENDS),
+ 'col_comment':        (lambda S: ddl('table_create', ['table', ['t', 't']], ['col', cdef('c', 'Text', ['Comment', S])]), ('mysql',)),
+ 'table_comment':      (lambda S: ddl('table_create', ['table', ['t', 't']], ['col', cdef('c', 'Text')], ['comment', S]), ('mysql',)),
+ 'enum_label':         (lambda S: ddl('table_create', ['table', ['t', 't']], ['col', cdef('c', ['Enum', 'ty', ['a', S]])]), ('mysql',)),
+ 'type_create_label':  (lambda S: ddl('type_create', ['as_enum', 'ty'], ['values', ['a', S]]), ('postgres',)),
+ 'type_add_value':     (lambda S: ddl('type_alter', ['name', 'ty'], ['add_value', S]), ('postgres',)),
+ 'type_add_before':    (lambda S: ddl('type_alter', ['name', 'ty'], ['add_value', 'v'], ['before', S]), ('postgres',)),
+ 'type_rename_value':  (lambda S: ddl('type_alter', ['name', 'ty'], ['rename_value', 'v', S]), ('postgres',)),
+ 'index_where':        (lambda S: ddl('index_create', ['name', 'i'], ['table', ['t', 't']], ['col', 'c'], ['and_where', ['bin', 'NotEqual', ['col', 'c'], SV(S)]]), ('postgres', 'sqlite')),
+}
+DDL_MARK = 'MARKER'
+def render_ddl(sq, st, backend):
+    from props import sqddl
+    return list(sqddl.render(sq, st, backend))
+
 def classify(kind, backend, inp):
     """role of a failing input (used as the known-finding key)"""
     if kind == 'char' and inp and inp[0] is not None and inp[0] >= 0x80: return 'nonascii'
@@ -46,6 +70,10 @@ def entry_for(item, syms, vc, sampler, out, check=True):
         info = {'pos': pos, 'kind': kind, 'backend': backend}
         if pos == 'value_to_string':
             txt = list(sq.value_to_string(backend, sq.value(val))); prefix = []; suffix = []
+        elif pos in DDL_POS:
+            txt = render_ddl(sq, DDL_POS[pos][0](Sym(syms)), backend)
+            ref = render_ddl(sq, DDL_POS[pos][0](DDL_MARK), backend); mtxt = [ord(c) for c in "'%s'" % DDL_MARK]
+            k = find_sub(ref, mtxt); prefix = ref[:k]; suffix = ref[k+len(mtxt):]
         elif pos in ('like_pattern', 'like_escape'):
             if pos == 'like_pattern':
                 st = like_stmt(Sym(syms), None); mk = like_stmt('MARKER', None); mtxt = [ord(c) for c in "'MARKER'"]
@@ -107,6 +135,7 @@ def native_req(item, inp):
     pos, kind, backend, L = item
     val = V('String', {'cps': inp}) if kind == 'string' else (V('Char', inp[0]) if kind == 'char' else V('Bytes', inp))
     if pos == 'value_to_string': return {'op': 'value_to_string', 'backend': backend, 'value': val}
+    if pos in DDL_POS: return {'op': 'render_ddl', 'backend': backend, 'stmt': to_json(DDL_POS[pos][0]({'cps': inp}))}
     if pos == 'like_pattern': return {'op': 'render', 'backend': backend, 'entry': 'to_string', 'stmt': to_json(like_stmt({'cps': inp}, None))}
     if pos == 'like_escape': return {'op': 'render', 'backend': backend, 'entry': 'to_string', 'stmt': to_json(like_stmt('x%', inp[0]))}
     return {'op': 'render', 'backend': backend, 'entry': 'to_string', 'stmt': to_json(build_stmt(pos, val))}
@@ -135,7 +164,7 @@ def native_verdict(item, inp, r):
     nat = NAT[0]
     if pos == 'value_to_string': start = 0; suffix = []
     else:
-        if pos == 'like_pattern': ref = nat.ask(native_req(item, [ord(c) for c in 'MARKER']))['sql']; mt = [ord(c) for c in "'MARKER'"]
+        if pos == 'like_pattern' or pos in DDL_POS: ref = nat.ask(native_req(item, [ord(c) for c in 'MARKER']))['sql']; mt = [ord(c) for c in "'MARKER'"]
         elif pos == 'like_escape': ref = nat.ask(native_req(item, [0x4d]))['sql']; mt = [ord(c) for c in "'M'"]
         else:
             ref = nat.ask({'op': 'render', 'backend': backend, 'entry': 'to_string', 'stmt': to_json(build_stmt(pos, V('Int', MARK)))})['sql']; mt = [ord(c) for c in str(MARK)]
@@ -164,14 +193,17 @@ def run(ctx):
             for L in ((1, 2) if quick else (0, 1, 2, 3)): items.append((pos, 'string', b, L))
             items.append((pos, 'char', b, 1)); items.append((pos, 'bytes', b, 1 if quick else 2))
         for L in ((1, 2) if quick else (0, 1, 2, 3)): items.append(('like_pattern', 'string', b, L))
+        for pos, (fn, bks) in DDL_POS.items():
+            if b not in bks: continue
+            for L in ((1, 2) if quick else (0, 1, 2, 3)): items.append((pos, 'string', b, L))
         items.append(('like_escape', 'char', b, 1))
     ctx.bounds = {'strings': 'L <= %d arbitrary Unicode scalar values at value_to_string, L <= %d at statement positions' % ((2, 2) if quick else (4, 3)),
                   'bytes': 'L <= %d arbitrary bytes' % (2 if quick else 3), 'char': 'one arbitrary Unicode scalar value',
-                  'positions': ['value_to_string', 'SELECT value (impl SqlWriter for String)', 'SimpleExpr::Constant', 'ORDER BY FIELD value', 'IN list member', 'LIKE pattern', 'LIKE .. ESCAPE char'],
+                  'positions': ['value_to_string', 'SELECT value (impl SqlWriter for String)', 'SimpleExpr::Constant', 'ORDER BY FIELD value', 'IN list member', 'LIKE pattern', 'LIKE .. ESCAPE char'] + ['schema: ' + p for p in DDL_POS],
                   'backends': list(BACKENDS)}
     ctx.assumptions += ['NUL is excluded for PostgreSQL and SQLite text (no representation in the engine)',
                         'reference lexers in props/lexers.py written from the three engines manuals; MySQL default sql_mode, PostgreSQL standard_conforming_strings=on',
-                        'DDL positions (DEFAULT, COMMENT, ENUM / CREATE TYPE labels) are covered by the schema harness rows when present in `positions`']
+                        'schema-statement positions: DEFAULT (create / add / modify column), CHECK, COMMENT (MySQL), ENUM labels (MySQL), CREATE / ALTER TYPE labels (Postgres), partial-index predicate']
     # translator validation on a concrete corpus
     corpus = ["", "abc", "it's", "a\\b", "\"q\"", "x\ny\t\r", "é表", "'';--", "\\'", "%_"]
     for b in BACKENDS:
